@@ -20,6 +20,16 @@ CLAIMS = {
              ref="§3 C15", note=NOTE_COMMON),
  "C16": dict(text="RegisterUpcastFunc as one inductive step from an arbitrary acyclic registry (acyclicity assumed through an uninterpreted rank function over SMT-string names): rejected iff empty/equal/nil/target-reaches-source; exhaustive call sequences over 3 names; apply() termination with raw upcasters returning arbitrary names, checked as an instruction budget.",
              ref="§3 C16", note=NOTE_COMMON + " Registry size bounded by E edges; concurrent registrations are covered under the schedule bound only once the C16 concurrent entry is registered."),
+ "C01": dict(text="Registry as an inductive step against a reference registry: arbitrary pre-state (registrations over several types and handler identities, optional prior removal), ONE arbitrary API operation, then probe publishes and counts for every type; plus every Once/Async/Sequential/context-aware/filter option combination over consecutive publishes with symbolic values.",
+             ref="§3 C01", note=NOTE_COMMON + " Shard routing with solver-chosen type names and re-entrant operations are separate entries (listed in the evidence when registered)."),
+ "C04": dict(text="Once handler over every history of eligible / filter-rejected / cancelled-context / other-type publishes (sync and async, with and without filter, ordinary handlers around it): fires exactly once iff an eligible publish occurred, counted until then.",
+             ref="§3 C04", note=NOTE_COMMON),
+ "C05": dict(text="Every arrangement of panicking and non-panicking handlers (plain/context-aware, Once/Async/Sequential) over two publishes and Wait: no panic escapes (engine outcome), every handler still runs once, panic handler once per panic with event/type/value, no deadlock on the second publish (sequential lock released).",
+             ref="§3 C05", note=NOTE_COMMON),
+ "C08": dict(text="Handler lists of sync/async x plain/context-aware handlers, cancellation before the call / by handler k / never, every subset of the four publish hooks: trace oracle over hook and handler start/end events, context values and cancellation seen by context-aware handlers.",
+             ref="§3 C08", note=NOTE_COMMON + " context is a Go-source model of package context."),
+ "C17": dict(text="Every acyclic upcaster graph over 4 names within the edge bound (several upcasters per source), a failure at any single step: callback sees the whole chain's composition or the original event, error handler once with the failing step; typed upcaster = JSON of f(decoded).",
+             ref="§3 C17", note=NOTE_COMMON),
 }
 
 NOT_APPLICABLE = {
